@@ -459,8 +459,8 @@ def same_dim_spelling(a, b):
     serialisation of the source token, so exotic spellings (`+.5rpx`, `1e2rpx`, more than 6 digits) come back
     normalised; a plain decimal spelling must come back character for character."""
     mb = re.match(r"^(-?(?:0|[1-9][0-9]*)(?:\.[0-9]*[1-9])?)([a-zA-Z%]*)$", b)
-    if mb and ("." not in mb.group(1) or len(re.sub(r"[-.]", "", mb.group(1)).lstrip("0")) <= 6):
-        return a == b  # plain integers of any length, and decimals of up to 6 significant digits
+    if mb and (("." not in mb.group(1) and abs(int(mb.group(1))) < 2 ** 31) or ("." in mb.group(1) and len(re.sub(r"[-.]", "", mb.group(1)).lstrip("0")) <= 6)):
+        return a == b  # plain integers of the i32 range, and decimals of up to 6 significant digits
     m1 = re.match(r"^([-+0-9.eE]+)([a-zA-Z%]*)$", a)
     m2 = re.match(r"^([-+0-9.eE]+)([a-zA-Z%]*)$", b)
     try:
@@ -482,7 +482,6 @@ def collect_hosts(rules, chain, out):
 
 
 WITNESSES = {
-    "C08": [("unicode-range-separated", "@font-face{unicode-range:U+0-7F}", {}, lambda r: "U +0 -7F" in r["out"])],
     "C19": [("form-feed-counted-as-line-break", ".a{color:red}\x0c.b{width:1rpx}\n.c{}", {"class_prefix": "p"}, lambda r: any(m[1] == 17 and m[2] == 1 for m in r.get("map", [])))],
     "C10": [("rpx-in-bare-at-prelude", "@a 75rpx;", {}, lambda r: "75rpx" in r["out"]), ("six-significant-digits", ".a{z-index:2147483647;width:0.1234567px}", {}, lambda r: "0.123457" in r["out"])],
 }
@@ -518,7 +517,10 @@ def run(run, pid, tier, seed, replay=None):
         if pid == "C18" and r.random() < 0.8:
             opts["import_sign"] = "IMP"
         cases.append({"id": i, "seed": s, "rules": rules, "text": text, "flat": flat, "opts": opts})
-    payload = [{"id": c["id"], "css": c["text"], "path": "p", "opts": c["opts"], "maps": pid == "C19", "tokens": True} for c in cases]
+    # a byte order mark in front of the text (an artefact of the file encoding) is not a part of the stylesheet
+    for c in cases:
+        c["bom"] = (c["seed"] % 41) == 7
+    payload = [{"id": c["id"], "css": ("\ufeff" if c["bom"] else "") + c["text"], "path": "p", "opts": c["opts"], "maps": pid == "C19", "tokens": True} for c in cases]
     results = common.run_gev(gev, "css", payload)
     # witnesses of the recorded findings
     for slug, css, o, pred in WITNESSES.get(pid, []):
